@@ -12,7 +12,7 @@ LEVEL = "exploration"
 WORKERS = {"quick": 8, "thorough": 16}
 BUDGET = {"quick": 150, "thorough": 420}
 MIN_NONTRIVIAL = {"quick": 4000, "thorough": 100000}
-REQUIRED_HOOKS = ["evaluate:I", "evaluate:C", "string", "bytes", "int", "uint", "double"]
+REQUIRED_HOOKS = ["evaluate:I", "evaluate:C", "string", "bytes", "int", "uint", "double", "embedded-literal"]
 RULE = (
     "The harness encodes a known Python value as a CEL literal -- strings/bytes in each quoting style (\"..\", '..', triple, raw) choosing per character a random "
     "admissible spelling among {itself, named escape, \\xHH, \\uHHHH, \\UHHHHHHHH, \\ooo}; ints/uints in decimal (sign, leading zeros) and hex; doubles as "
@@ -190,8 +190,33 @@ def evaluate(acc, src):
     return outs
 
 
+# A literal denotes the same value wherever it stands: at the top level, in a branch of ?:, as an operand of || / &&, in a macro
+# body, a list or map literal, a function argument (the transpiler pastes literal text into templates of the enclosing construct).
+CONTEXTS = [
+    ("cond", "true ? @@L@@ : @@L@@"), ("cond-else", "1 > 2 ? @@L@@ : @@L@@"), ("or-operand", "((@@L@@) == (@@L@@) || false) ? @@L@@ : @@L@@"), ("and-operand", "(true && (@@L@@) == (@@L@@)) ? @@L@@ : @@L@@"),
+    ("macro-body", "[1].map(i, @@L@@)[0]"), ("nested-macro-body", "[[1]].map(i, i.map(j, @@L@@))[0][0]"), ("list", "[@@L@@, @@L@@][1]"), ("map-value", "{'k': @@L@@}.k"),
+    ("filter", "[@@L@@].filter(x, x == @@L@@)[0]"), ("exists-then", "[1].exists(i, (@@L@@) == (@@L@@)) ? @@L@@ : @@L@@"), ("argument", "[@@L@@].map(v, v)[0]"), ("has-then", "has({'a': 1}.b) ? @@L@@ : @@L@@"),
+]
+_ctx_counter = [0]
+
+
 def judge(acc, kind, src, exp_mv, outs, describe):
     """exp_mv: model value or 'E'. describe(runner, out) -> slug when violated."""
+    good = _judge(acc, kind, src, exp_mv, outs, describe)
+    _ctx_counter[0] += 1
+    if good and exp_mv != "E" and _ctx_counter[0] % 3 == 0 and len(src) < 400:
+        name, tmpl = CONTEXTS[(_ctx_counter[0] // 3) % len(CONTEXTS)]
+        src2 = tmpl.replace("@@L@@", src)
+        outs2 = evaluate(acc, src2)
+        acc.hook("embedded-literal")
+        for r in list(outs2):
+            if r == "C" and name == "has-then":
+                del outs2[r]  # compiled has() yields a native bool (listed C03/C13 finding): ?: on it is an error for another reason
+        good = _judge(acc, kind + "@" + name, src2, exp_mv, outs2, lambda r, out: f"{r} {kind.split(':')[0]} embedded-in-{name} obs={diag.oclass(out)}") and good
+    return good
+
+
+def _judge(acc, kind, src, exp_mv, outs, describe):
     good = True
     for r, out in outs.items():
         if exp_mv == "E":
